@@ -116,12 +116,17 @@ def snapshot(root):
 
 
 # ----------------------------------------------------------------------------- crash injector
+class SimFailure(RuntimeError):
+    """Injected failure of an ordinary kind (an Exception, as a bug or a full disk would raise)"""
+
+
 class CrashInjector:
     """sys.settrace based: counts calls into polyply/vermouth code; raises SimCrash at the
     k-th call (k=None: count only).  `stop_at` = (file basename, function) where counting stops."""
 
-    def __init__(self, k=None, stop_at=None, on_crash=None):
+    def __init__(self, k=None, stop_at=None, on_crash=None, ordinary=False):
         self.on_crash = on_crash
+        self.ordinary = ordinary
         self.k = k
         self.count = 0
         self.stop_at = stop_at
@@ -158,6 +163,8 @@ class CrashInjector:
             self.where = f"{base}:{name}"
             if self.on_crash:
                 self.on_crash()
+            if self.ordinary:
+                raise SimFailure(f"injected failure at call {self.k} ({self.where})")
             raise SimCrash(f"injected crash at call {self.k} ({self.where})")
         return None
 
@@ -203,13 +210,19 @@ def _snapshot_molecule(mol):
     return {"atoms": atoms, "inter": inter, "nrexcl": getattr(mol, "nrexcl", None)}
 
 
-def _write_files(opdir, files):
+def _write_files(opdir, files, shared=False):
     paths = []
+    if shared:
+        # all calls of the history read their input files from ONE directory; every file keeps the same modification
+        # time whatever is written into it (cp -p, archive extraction, coarse time stamps)
+        opdir = os.path.join(os.path.dirname(opdir), "shared")
     for fname, text in files:
         p = os.path.join(opdir, fname)
         os.makedirs(os.path.dirname(p), exist_ok=True)
         with open(p, "w") as fh:
             fh.write(text)
+        if shared:
+            os.utime(p, (1000000000, 1000000000))
         paths.append(Path(p))
     return paths
 
@@ -233,7 +246,7 @@ def op_gen_params(op, root, opdir, cap):
     import vermouth
     import polyply.src.gen_itp as gi
     import polyply.src.load_library as ll
-    paths = _write_files(opdir, op.get("files", []))
+    paths = _write_files(opdir, op.get("files", []), shared=bool(op.get("shared_inputs")))
     kw = {"name": op.get("name", "POL"), "outpath": _outpath(op, root)}
     kw["inpath"] = [] if op.get("files_as_library") else paths
     if not kw["inpath"] and not op.get("via_main"):
@@ -274,7 +287,8 @@ def op_gen_params(op, root, opdir, cap):
     def listdir(path):
         out = sorted(real_listdir(path))
         if perm_seed is not None:
-            random.Random(h64(f"{perm_seed}:{path}")).shuffle(out)
+            # (keyed by the directory's NAME: its absolute path contains the scratch root, which differs from run to run)
+            random.Random(h64(f"{perm_seed}:{os.path.basename(str(path).rstrip('/'))}")).shuffle(out)
         return out
 
     class _OS:
@@ -582,6 +596,10 @@ def exec_history(hist):
                 os.chdir(root)
             if os.path.dirname(op["out"]):
                 os.makedirs(os.path.join(root, os.path.dirname(op["out"])), exist_ok=True)
+            saved_env = {}
+            for key, val in (op.get("env") or {}).items():
+                saved_env[key] = os.environ.get(key)
+                os.environ[key] = val
             before = snapshot(root)
             cap = _Capture()
             handler = _Log()
@@ -600,17 +618,21 @@ def exec_history(hist):
                         res["instant"] = {"created": sorted(set(now) - set(before)),
                                           "removed": sorted(set(before) - set(now)),
                                           "modified": sorted(x for x in now if x in before and now[x] != before[x])}
-                    inj = CrashInjector(k=k, stop_at=stop, on_crash=_instant if op.get("snapshot_at_crash") else None)
+                    inj = CrashInjector(k=k, stop_at=stop, on_crash=_instant if op.get("snapshot_at_crash") else None,
+                                        ordinary=op.get("crash_exc") == "ordinary")
                     inj.record_sites = bool(count_only)
                     with inj:
                         _dispatch(op, root, opdir, cap)
                 else:
                     _dispatch(op, root, opdir, cap)
-            except SimCrash as err:
+            except (SimCrash, SimFailure) as err:
                 res["status"] = "crash"
                 res["where"] = inj.where if inj else None
             except BaseException as err:       # noqa - classify everything polyply can raise
                 res["status"] = "exc:" + type(err).__name__
+                if inj is not None and inj.where is not None and inj.ordinary:
+                    # the injected ordinary failure came back wrapped in another exception (parsers re-raise as IOError)
+                    res["status"] = "crash"
                 res["error"] = f"{type(err).__name__}: {str(err)[:300]}"
                 tb = traceback.extract_tb(err.__traceback__)
                 for fr in reversed(tb):
@@ -622,6 +644,11 @@ def exec_history(hist):
                 plog.removeHandler(handler)
                 plog.setLevel(old_level)
                 os.chdir(root)
+                for key, val in saved_env.items():
+                    if val is None:
+                        os.environ.pop(key, None)
+                    else:
+                        os.environ[key] = val
             if inj is not None:
                 res["fired_where"] = inj.where
                 res["calls"] = inj.count
